@@ -709,8 +709,8 @@ class VMF:
                 pass
             else:
                 self.node_id.discard(node_id)
-
-        self.ent_id.discard(item.id)
+        # The entity ID is not released here. The object can be re-added later, so the ID stays
+        # reserved until the entity itself is destroyed (see Entity.__del__).
 
     def add_brushes(self, brushes: Iterable['Solid']) -> None:
         """Add multiple brushes to the map."""
